@@ -26,14 +26,25 @@ impl Decimal {
         Decimal { coef, exp }
     }
 
+    #[cfg(test)]
     pub fn lcm(&self, other: &Decimal) -> Decimal {
+        self.checked_lcm(other)
+            .expect("multipleOf values are too large to be combined")
+    }
+
+    /// Least common multiple, or `None` when it does not fit the 32-bit coefficient
+    /// (previously the products below wrapped around silently in release builds).
+    pub fn checked_lcm(&self, other: &Decimal) -> Option<Decimal> {
         if self.coef == 0 || other.coef == 0 {
-            return Decimal::new(0, 0);
+            return Some(Decimal::new(0, 0));
         }
-        let a = self.coef * 10u32.pow(other.exp.saturating_sub(self.exp));
-        let b = other.coef * 10u32.pow(self.exp.saturating_sub(other.exp));
-        let coef = (a * b) / gcd(a, b);
-        Decimal::new(coef, self.exp.max(other.exp))
+        let a = (self.coef as u64)
+            .checked_mul(10u64.checked_pow(other.exp.saturating_sub(self.exp))?)?;
+        let b = (other.coef as u64)
+            .checked_mul(10u64.checked_pow(self.exp.saturating_sub(other.exp))?)?;
+        let coef = (a / gcd64(a, b)).checked_mul(b)?;
+        let coef = u32::try_from(coef).ok()?;
+        Some(Decimal::new(coef, self.exp.max(other.exp)))
     }
 
     pub fn to_f64(&self) -> f64 {
@@ -64,11 +75,11 @@ impl TryFrom<f64> for Decimal {
     }
 }
 
-fn gcd(a: u32, b: u32) -> u32 {
+fn gcd64(a: u64, b: u64) -> u64 {
     if b == 0 {
         a
     } else {
-        gcd(b, a % b)
+        gcd64(b, a % b)
     }
 }
 
